@@ -382,7 +382,7 @@ def replay(payload):
                     cap, lp = [], []
 
                     def fake(fun, x0, **kw):
-                        cap.append(dict(fun=fun, **kw))
+                        cap.append(dict(fun=fun, x0=np.array(x0, dtype=float), **kw))
                         return types.SimpleNamespace(x=np.array(x0, dtype=float), fun=fun(np.array(x0, dtype=float)), success=False, message="scripted", nit=0)
 
                     def fake_lp(c, **kw):
@@ -401,6 +401,23 @@ def replay(payload):
                     if not cap:
                         continue
                     s = 1.0 if model["sense"] == "min" else -1.0
+                    # also at the point every solve of this history evaluated last (the starting point): a value or
+                    # gradient remembered from an earlier solve would be served there
+                    x0c = cap[0]["x0"]
+                    v0 = fresh()
+                    v0.update({n: float(t) for n, t in zip(cols, x0c)})
+                    with np.errstate(all="ignore"):
+                        want0 = s * float(Ref(v0, 0).S(model["obj"]))
+                        got0 = float(cap[0]["fun"](x0c))
+                    if np.isfinite(want0) and np.isfinite(got0) and not K.close(got0, want0, 1e-7, 1e-9):
+                        return True, f"after {hist}: objective handed to the solver gives {got0} at the starting point {x0c.tolist()}, expected {want0} (current parameters {cur})"
+                    g0 = np.asarray(cap[0]["jac"](x0c), dtype=float).reshape(-1)
+                    rg0 = []
+                    for w in cols:
+                        r = Ref(K.dual_val(v0, w), 1)
+                        rg0.append(s * float(K.tangent(r.S(model["obj"]))))
+                    if all(np.isfinite(rg0)) and all(np.isfinite(g0)) and any(not K.close(a, b_, 1e-6, 1e-8) for a, b_ in zip(g0, rg0)):
+                        return True, f"after {hist}: gradient handed to the solver at the starting point {g0.tolist()} vs {rg0}"
                     if not K.close(float(cap[0]["fun"](x)), s * ref_val(), 1e-7, 1e-9):
                         return True, f"after {hist}: objective handed to the solver gives {float(cap[0]['fun'](x))}, expected {s * ref_val()}"
                     g = np.asarray(cap[0]["jac"](x), dtype=float).reshape(-1)
